@@ -281,7 +281,7 @@ GRID = {3: [0, Fr(1, 4), 1], 4: [0, Fr(1, 8), Fr(1, 2), 1], 5: [0, Fr(1, 16), Fr
 # kernel actually walks (L consecutive cells from the view's first element) another valid grid
 ALT = {3: [0, Fr(3, 5), 1], 4: [0, Fr(1, 5), Fr(7, 10), 1], 5: [0, Fr(1, 10), Fr(3, 10), Fr(4, 5), 1]}
 
-PHI_PATTERNS = ('C', 'F', 'T', 'swap01', 'swaplast', 'step2-first', 'step2-last', 'offset-first', 'offset-last',
+PHI_PATTERNS = ('C', 'slice-unit', 'F', 'T', 'swap01', 'swaplast', 'step2-first', 'step2-last', 'offset-first', 'offset-last',
                 'neg-first', 'neg-last', 'neg-all')
 XX_PATTERNS = ('C', 'step2', 'neg', 'offset')
 
@@ -302,6 +302,9 @@ def _phi_view(env, nd, L, pat):
     if pat == 'C':
         base = _mk(env, 'p', full)
         v = base
+    elif pat == 'slice-unit':   # base[::1]: a view object, same memory order
+        base = _mk(env, 'p', full)
+        v = base[::1]
     elif pat == 'F':
         base = _mk(env, 'p', full, 'F')
         v = base
@@ -925,12 +928,14 @@ def _dbeta_unit(nd, L, scenario):
         g = env.grid('g', L)
         if scenario == 'grids':
             h = env.grid('h', L)
-        elif scenario == 'grids-shared-prefix':    # the two grids agree in every point but the last interior one
-            hl = env.real('hl', lo=0, hi=1, lo_open=True, hi_open=True)
-            env.assume(g[L - 3] < hl)
-            env.assume(hl != g[L - 2])
+        elif scenario.startswith('grids-differ-at-'):   # the two grids agree in every point but interior point k
+            k = int(scenario.rsplit('-', 1)[1])
+            hk = env.real('hk', lo=0, hi=1, lo_open=True, hi_open=True)
+            env.assume(g[k - 1] < hk)
+            env.assume(hk < g[k + 1])
+            env.assume(hk != g[k])
             h = g.copy()
-            h[L - 2] = hl
+            h[k] = hk
         else:
             h = g
         phi1 = env.array('p', (L,) * nd)
@@ -939,8 +944,11 @@ def _dbeta_unit(nd, L, scenario):
         n2 = [2] * nd if scenario != 'sizes' else [3] + [2] * (nd - 1)
         first = lambda: dadi.Spectrum.from_phi(phi1, n1, [g] * nd, mask_corners=False)
         second = lambda: dadi.Spectrum.from_phi(phi2, n2, [h] * nd, mask_corners=False)
+        from dadi import Spectrum_mod
         _clear_caches()
         r1 = first()
+        if len(Spectrum_mod._dbeta_cache) > 0:
+            env.holds('(vacuity) the beta-difference cache is in use', True)
         r2 = second()
         r1b = first()      # third call: back to the first key while the second one is cached as well
         _clear_caches()
@@ -951,7 +959,7 @@ def _dbeta_unit(nd, L, scenario):
         env.same('first call == cold', np.ma.getdata(r1), np.ma.getdata(c1))
         env.same('first call repeated (warm) == cold', np.ma.getdata(r1b), np.ma.getdata(c1))
     return H.Unit('cache-dbeta-%dd-L%d-%s' % (nd, L, scenario), body, params=dict(pops=nd, L=L, scenario=scenario),
-                  setup=_setup_spec, min_obligations=3 * 3 ** nd, timeout_s=900, maxpaths=64, query_timeout_ms=120000)
+                  setup=_setup_spec, min_obligations=3 * 3 ** nd + 1, timeout_s=900, maxpaths=64, query_timeout_ms=120000)
 
 
 def _setup_godambe():
@@ -1004,6 +1012,8 @@ def _godambe_unit(scenario):
             raise KeyError(scenario)
         _clear_caches()
         hist = [f() for f in seq] + [seq[0]()]
+        if len(Godambe.cache) > 0:
+            env.holds('(vacuity) the spectrum cache is in use', True)
         cold = []
         for f in seq + [seq[0]]:
             _clear_caches()
@@ -1011,7 +1021,7 @@ def _godambe_unit(scenario):
         for k, (a, b) in enumerate(zip(hist, cold)):
             env.same('call %d == cold' % k, np.asarray(a), np.asarray(b))
     return H.Unit('cache-godambe-%s' % scenario, body, params=dict(scenario=scenario), setup=_setup_godambe,
-                  min_obligations=12, timeout_s=900, maxpaths=64, query_timeout_ms=120000)
+                  min_obligations=13, timeout_s=900, maxpaths=64, query_timeout_ms=120000)
 
 
 def _projection_cache_unit(order_id):
@@ -1047,7 +1057,8 @@ def _projection_cache_unit(order_id):
         n = 0
         for key, sn in snaps.items():
             n += _unchanged(env, 'cached projection weights %s' % (key,), sn, Numerics._projection_cache[key])
-        env.holds('cache entries inspected', n > 0)
+        if n > 0:
+            env.holds('(vacuity) cached projection weights inspected', True)
     return H.Unit('cache-intkeys-projection-order%d' % order_id, body, params=dict(order=ORDERS[order_id], enumeration=True),
                   setup=_setup_spec, min_obligations=40, timeout_s=600)
 
@@ -1092,6 +1103,87 @@ def _partition_cache_unit():
                   timeout_s=300)
 
 
+def _constructor_unit(shape, mask_corners):
+    """dadi.Spectrum(data, mask=mask): the caller's data and mask arrays are left alone (the constructor masks the
+    corners of ITS mask)."""
+    def body(env):
+        import dadi
+        d = env.array('d', shape)
+        m = np.zeros(shape, dtype=bool)
+        m[tuple(min(1, s - 1) for s in shape)] = True
+        pids = list(POPS[:len(shape)])
+        s_d, s_m, s_p = _snap(d), _snap(m), _snap(pids)
+        fs = dadi.Spectrum(d, mask=m, mask_corners=mask_corners, pop_ids=pids)
+        fs.mask_corners()
+        fs.data[tuple(0 for _ in shape)] = fs.data[tuple(s - 1 for s in shape)]   # writing into the new object ...
+        _unchanged(env, 'data', s_d)                                               # ... must not reach the inputs
+        _unchanged(env, 'mask', s_m)
+        _unchanged(env, 'pop_ids', s_p)
+        env.holds('spectrum shares no memory with data/mask', not _shares(fs, d) and not _shares(fs, m))
+    nm = 'x'.join(map(str, shape))
+    return H.Unit('inplace-spectrum-constructor-%s-%s' % (nm, 'corners' if mask_corners else 'nocorners'), body,
+                  params=dict(shape=list(shape), mask_corners=mask_corners), setup=_setup_spec,
+                  min_obligations=int(np.prod(shape)) + 3, timeout_s=300)
+
+
+def _from_phi_layout_unit(nd, L, ns, pat):
+    """Spectrum.from_phi (pure numpy) on a non-contiguous density view equals from_phi on a contiguous copy."""
+    def body(env):
+        import dadi
+        base, v = _phi_view(env, nd, L, pat)
+        c = np.array(v, copy=True, order='C')
+        xx = env.constarray(GRID[L])
+        _clear_caches()
+        want = dadi.Spectrum.from_phi(c, list(ns), [xx] * nd, mask_corners=False)
+        got = dadi.Spectrum.from_phi(v, list(ns), [xx] * nd, mask_corners=False)
+        env.same('from_phi(view) == from_phi(contiguous copy)', np.ma.getdata(got), np.ma.getdata(want))
+    return H.Unit('layout-from_phi-%dd-L%d-%s' % (nd, L, pat), body, params=dict(pops=nd, L=L, ns=list(ns), pattern=pat),
+                  setup=_setup_spec, min_obligations=int(np.prod([n + 1 for n in ns])), timeout_s=600)
+
+
+def _history_unit(order_id):
+    """A mixed sequence of cached operations (sampling from phi on two symbolic grids, projections, folding,
+    likelihoods) run back to back in a given order with shared caches: every result equals the result of the same
+    call made with all caches cold."""
+    def body(env):
+        import dadi
+        from dadi import Inference
+        L = 4
+        g, h = env.grid('g', L), env.grid('h', L)
+        phi1 = np.empty((L, L), dtype=object if env.symbolic else float)
+        phi2 = np.empty((L, L), dtype=object if env.symbolic else float)
+        for idx in np.ndindex(L, L):
+            phi1[idx] = env.real('p_%d_%d' % idx, lo=Fr(1, 10), hi=10)
+            phi2[idx] = env.real('r_%d_%d' % idx, lo=Fr(1, 10), hi=10)
+        data = _mkspec(env, 'd', (3, 3), mask='corners')
+        calls = [
+            lambda: dadi.Spectrum.from_phi(phi1, [3, 2], [g, g], mask_corners=False),
+            lambda: dadi.Spectrum.from_phi(phi2, [3, 2], [h, h], mask_corners=False),
+            lambda: dadi.Spectrum.from_phi(phi1, [3, 2], [g, g], mask_corners=False).project([2, 2]),
+            lambda: dadi.Spectrum.from_phi(phi2, [2, 3], [h, h], mask_corners=False).project([2, 2]),
+            lambda: dadi.Spectrum.from_phi(phi2, [4, 2], [g, g], mask_corners=False).project([2, 1]),
+            lambda: dadi.Spectrum.from_phi(phi1, [2, 2], [h, h]).fold(),
+            lambda: Inference.optimal_sfs_scaling(dadi.Spectrum.from_phi(phi1, [2, 2], [g, g]), data),
+            lambda: dadi.Spectrum.from_phi(phi1, [3, 3], [g, g], mask_corners=False).marginalize([1]).project([2]),
+        ]
+        orders = {0: list(range(len(calls))), 1: list(reversed(range(len(calls)))), 2: [4, 1, 6, 3, 0, 7, 2, 5, 1, 4]}
+        cold = []
+        for f in calls:
+            _clear_caches()
+            cold.append(f())
+        _clear_caches()
+        for step, k in enumerate(orders[order_id]):
+            r = calls[k]()
+            if isinstance(r, np.ndarray):
+                env.same('step %d (call %d) == cold' % (step, k), np.ma.getdata(r), np.ma.getdata(cold[k]))
+                env.holds('step %d (call %d): mask == cold' % (step, k),
+                          bool(np.array_equal(np.ma.getmaskarray(r), np.ma.getmaskarray(cold[k]))))
+            else:
+                env.eq('step %d (call %d) == cold' % (step, k), r, cold[k])
+    return H.Unit('cache-history-mixed-order%d' % order_id, body, params=dict(order=order_id), setup=_setup_spec,
+                  min_obligations=40, timeout_s=900, maxpaths=64, query_timeout_ms=120000)
+
+
 # =================================================================================================
 def units(tier, seed):
     thorough = tier == 'thorough'
@@ -1124,6 +1216,9 @@ def units(tier, seed):
                 continue
             us.append(_spec_unit(shape, mask, folded, op))
         us.append(_fold_unit(shape, mask, 'unfold' if folded else 'fold'))
+    for shape in ((5,), (4, 3)):
+        for mc in (True, False):
+            us.append(_constructor_unit(shape, mc))
     for nd, L, ns, var in [(1, 4, (3,), 'linalg'), (1, 4, (3,), 'direct'), (2, 4, (2, 3), 'linalg'), (2, 3, (2, 2), 'direct'),
                            (2, 3, (2, 1), 'admix'), (3, 3, (1, 2, 1), 'linalg'), (3, 3, (1, 1, 2), 'admix'),
                            (4, 3, (1, 1, 1, 1), 'linalg')]:
@@ -1170,12 +1265,17 @@ def units(tier, seed):
     if thorough:
         for nd, order in ((3, (3, 2, 1)), (4, (1, 3, 4, 2)), (5, (5, 1, 2, 3, 4))):
             us.append(_reorder_unit(nd, 3, order))
+    for nd, L, ns, pat in [(2, 4, (2, 3), 'T'), (2, 4, (2, 3), 'neg-all'), (3, 3, (1, 2, 1), 'swap01'), (3, 3, (2, 1, 1), 'step2-last'),
+                           (4, 3, (1, 1, 2, 1), 'T')]:
+        us.append(_from_phi_layout_unit(nd, L, ns, pat))
     # ---- (c) caches
-    for nd, L, sc in [(2, 4, 'grids'), (2, 4, 'grids-shared-prefix'), (2, 4, 'sizes'), (2, 4, 'same'), (3, 3, 'grids'),
+    for o in (0, 1, 2):
+        us.append(_history_unit(o))
+    for nd, L, sc in [(2, 4, 'grids'), (2, 4, 'grids-differ-at-1'), (2, 4, 'grids-differ-at-2'), (2, 4, 'sizes'), (2, 4, 'same'), (3, 3, 'grids'),
                       (3, 3, 'sizes')]:
         us.append(_dbeta_unit(nd, L, sc))
     if thorough:
-        for nd, L, sc in [(2, 5, 'grids'), (2, 5, 'grids-shared-prefix'), (3, 4, 'grids'), (4, 3, 'grids'), (4, 3, 'sizes')]:
+        for nd, L, sc in [(2, 5, 'grids'), (2, 5, 'grids-differ-at-1'), (2, 5, 'grids-differ-at-3'), (3, 4, 'grids-differ-at-2'), (3, 4, 'grids'), (4, 3, 'grids'), (4, 3, 'sizes')]:
             us.append(_dbeta_unit(nd, L, sc))
     for sc in ('params', 'params-one-differs', 'pts', 'ns', 'func', 'same'):
         us.append(_godambe_unit(sc))
